@@ -25,6 +25,7 @@ type c17Case struct {
 	Minor   byte   `json:"minor"`
 	Version uint16 `json:"version"`
 	Kind    string `json:"transport"`
+	Split   int    `json:"request_split_at,omitempty"` // > 0: the 14-byte handshake request travels in two transport units, cut after this many bytes
 }
 
 func genKind(t *rapid.T) string {
@@ -43,11 +44,15 @@ func genC17(t *rapid.T) c17Case {
 	default:
 		caps = rapid.Uint16().Draw(t, "caps")
 	}
-	return c17Case{
+	c := c17Case{
 		Cookie: rapid.Bool().Draw(t, "cookie"), SC: rapid.Bool().Draw(t, "sc"), Caps: caps,
 		Major: rapid.Byte().Draw(t, "major"), Minor: rapid.Byte().Draw(t, "minor"),
 		Version: rapid.Uint16().Draw(t, "version"), Kind: genKind(t),
 	}
+	if rapid.IntRange(0, 3).Draw(t, "split") == 0 {
+		c.Split = rapid.IntRange(1, 13).Draw(t, "splitAt")
+	}
+	return c
 }
 
 func c17Server(c c17Case) uint16 {
@@ -112,11 +117,15 @@ func checkC17(c c17Case, r sess.Result) *Violation {
 }
 
 func c17Units(c c17Case) [][]byte {
-	return [][]byte{
+	u := [][]byte{
 		tsgu.Handshake(c.Major, c.Minor, c.Version, c.Caps),
 		tsgu.TunnelCreate("", false),
 		tsgu.Handshake(0, 0, 0, c.Caps), // terminator: refused in every phase but the first
 	}
+	if c.Split > 0 && c.Split < len(u[0]) {
+		u = append([][]byte{u[0][:c.Split], u[0][c.Split:]}, u[1:]...)
+	}
+	return u
 }
 
 func TestC17_INP(t *testing.T) {
@@ -164,7 +173,7 @@ func TestC17_BIN(t *testing.T) {
 			if c.Cookie {
 				// the real wiring checks the cookie: present a valid one so that "the next step is answered"
 				ck, _, _, _ := W().mintCookie("valid:A", "127.0.0.1")
-				units[1] = tsgu.TunnelCreate(ck, true)
+				units[len(units)-2] = tsgu.TunnelCreate(ck, true)
 			}
 			if v := checkC17(s, sess.Run(s.Kind, tgt, units)); v != nil {
 				v.Msg = fmt.Sprintf("sub-case %d %+v: %s", i, s, v.Msg)
